@@ -98,6 +98,46 @@ theorem findPrevious_spec (vs : List Nat) (hs : vs.Pairwise (· < ·)) (version 
       · have := hall v0 (by simp); omega
       · rw [hc] at hc'; cases hc'; exact ⟨hm, hle, hmax⟩
 
+theorem rangeAdd_sorted (vs : List Nat) (h : vs.Pairwise (· < ·)) (v : Nat) (vs' : List Nat)
+    (ha : rangeAdd vs v = some vs') : vs'.Pairwise (· < ·) := by
+  unfold rangeAdd at ha
+  cases hl : vs.getLast? with
+  | none =>
+    rw [hl] at ha; simp only [Option.some.injEq] at ha; subst ha; simp
+  | some last =>
+    rw [hl] at ha
+    simp only at ha
+    split at ha
+    · cases ha
+    · rename_i hv
+      simp only [Option.some.injEq] at ha; subst ha
+      rw [List.pairwise_append]
+      refine ⟨h, by simp, ?_⟩
+      intro a hma b hmb
+      have : b = v := by simpa using hmb
+      subst this
+      obtain ⟨j, hj, rfl⟩ := List.mem_iff_getElem.mp hma
+      rw [List.getLast?_eq_getElem?] at hl
+      have := sorted_get_le vs h j (vs.length - 1) _ _ (by omega) (List.getElem?_eq_getElem hj) hl
+      omega
+
+/-- **every `VersionRange` the library can build is strictly ascending** - the hypothesis of the two search
+    theorems holds for every sequence of `Add` calls -/
+theorem rangeOf_sorted (adds : List Nat) : (rangeOf adds).Pairwise (· < ·) := by
+  unfold rangeOf
+  have : ∀ (vs : List Nat), vs.Pairwise (· < ·) →
+      (adds.foldl (fun vs v => (rangeAdd vs v).getD vs) vs).Pairwise (· < ·) := by
+    induction adds with
+    | nil => intro vs h; exact h
+    | cons a t ih =>
+      intro vs h
+      simp only [List.foldl_cons]
+      apply ih
+      cases ha : rangeAdd vs a with
+      | none => simpa using h
+      | some vs' => simpa using rangeAdd_sorted vs h a vs' ha
+  exact this [] List.Pairwise.nil
+
 theorem findLoop_spec (vs : List Nat) (hs : vs.Pairwise (· < ·)) (version : Nat) :
     ∀ (fuel low hi : Nat), hi - low ≤ fuel → low ≤ hi → hi ≤ vs.length →
       (∀ i x, i < low → vs[i]? = some x → x < version) →
